@@ -171,3 +171,10 @@ impl ControllerFactory for NewRenoConfig {
         Box::new(NewReno::new(self, now, current_mtu))
     }
 }
+
+#[cfg(feature = "__verif-hooks")]
+#[allow(missing_docs, unreachable_pub, dead_code, unused_imports, unused_qualifications)]
+pub mod verif {
+    use super::*;
+    include!(concat!(env!("QUINN_VERIF_HOOKS"), "/proto/congestion/new_reno.rs"));
+}
